@@ -109,11 +109,11 @@ def read_spans(spans):
             "quantity": quantity}
 
 
-def check_numeral_against(text, base, want, approx, strict=False):
+def check_numeral_against(text, base, want, approx, strict=False, float_result=False):
     """want: exact Fraction the numeral should denote.  Returns None if ok else reason."""
     try:
         if approx:
-            ok = NR.approx_matches(text, base, want, strict=strict)
+            ok = NR.approx_matches(text, base, want, strict=strict, float_result=float_result)
             return None if ok else "approximate numeral is not the value truncated within one last-digit unit"
         ok = NR.exact_matches(text, 10 if "/" in text else base, want)
         return None if ok else "exact numeral does not denote the value"
@@ -163,7 +163,7 @@ def check_parts(np_, reg, quantity=None, qdims=None, list_entry=False, base=10):
             if why:
                 problems.append(("exact_numeral_times_unit_differs", {"numeral": ex, "should_denote": str(want), "why": why}))
         if ap is not None:
-            why = check_numeral_against(ap, base, want, approx=True)
+            why = check_numeral_against(ap, base, want, approx=True, float_result=bool(raw and raw.get("f")))
             if why:
                 problems.append(("approx_numeral_times_unit_differs", {"numeral": ap, "should_denote": str(want), "why": why}))
     return problems
@@ -196,7 +196,7 @@ def check_dimension_text(np_, reg):
     return problems
 
 
-def check_spans(spans, reg, quantity, qdims, base=10, list_entry=False):
+def check_spans(spans, reg, quantity, qdims, base=10, list_entry=False, float_result=False):
     """Same law from the rendered token stream."""
     problems = []
     rd = read_spans(spans)
@@ -216,7 +216,7 @@ def check_spans(spans, reg, quantity, qdims, base=10, list_entry=False):
             if why and check_numeral_against(text, base, want, approx=False):
                 problems.append(("rendered_list_numeral_wrong", {"numeral": text, "should_denote": str(want)}))
         else:
-            why = check_numeral_against(text, base, want, approx=approx)
+            why = check_numeral_against(text, base, want, approx=approx, float_result=float_result and approx)
             if why:
                 problems.append(("rendered_numeral_times_unit_differs",
                                  {"numeral": text, "approx": approx, "should_denote": str(want), "why": why}))
